@@ -25,10 +25,13 @@ impl Visitor<Statement> for PrintLinter {
 
 impl Visitor<Print> for PrintLinter {
     fn visit(&mut self, print: &Print) -> VisitResult {
-        if let Some(f) = &print.format_string
-            && f.expression_type() != ExpressionType::BuiltIn(TypeQualifier::DollarString)
-        {
-            return Err(LintError::TypeMismatch.at(f));
+        if let Some(f) = &print.format_string {
+            // the format of PRINT USING is a string: STRING or STRING * n
+            match f.expression_type() {
+                ExpressionType::BuiltIn(TypeQualifier::DollarString)
+                | ExpressionType::FixedLengthString(_) => {}
+                _ => return Err(LintError::TypeMismatch.at(f)),
+            }
         }
         for print_arg in &print.args {
             if let PrintArg::Expression(expr_pos) = print_arg {
